@@ -110,7 +110,52 @@ fn find_path(req: &Value) -> Value {
     json!({"outcome": outcome, "problems": bad, "violates": !bad.is_empty()})
 }
 
+/// C18 P2: find_variable_paths against an enumeration of the walks within the hop window
+fn variable_paths(req: &Value) -> Value {
+    let g = GraphEngine::new();
+    let wn: Vec<u64> = req["nodes"].as_array().into_iter().flatten().filter_map(Value::as_u64).collect();
+    let nodes: Vec<u64> = wn.iter().map(|_| g.create_node("N", HashMap::new()).unwrap()).collect();
+    let node_of = |w: u64| wn.iter().position(|x| *x == w).map_or(900_000 + (w % 1000), |i| nodes[i]);
+    let mut es: Vec<(u64, u64, u64, bool)> = vec![];
+    for e in req["edges"].as_array().into_iter().flatten() {
+        let (a, b, d) = (nodes[e[0].as_u64().unwrap_or(0) as usize], nodes[e[1].as_u64().unwrap_or(0) as usize], e[3].as_bool().unwrap_or(true));
+        es.push((g.create_edge(a, b, "T", HashMap::new(), d).unwrap(), a, b, d));
+    }
+    let (from, to) = (node_of(req["arg1"].as_u64().unwrap_or(0)), node_of(req["arg2"].as_u64().unwrap_or(0)));
+    let (lo, hi, cycles) = (req["min_hops"].as_u64().unwrap_or(1) as usize, req["max_hops"].as_u64().unwrap_or(2) as usize, req["allow_cycles"].as_bool().unwrap_or(false));
+    fn go(es: &[(u64, u64, u64, bool)], cur: u64, to: u64, lo: usize, hi: usize, cycles: bool, seen: &mut Vec<u64>, edges: &mut Vec<u64>, out: &mut std::collections::BTreeSet<Vec<u64>>) {
+        if edges.len() >= lo && edges.len() <= hi && cur == to { out.insert(edges.clone()); }
+        if edges.len() == hi { return; }
+        for (id, f, t, d) in es {
+            let mut steps = vec![];
+            if *f == cur { steps.push(*t); }
+            if !*d && *t == cur && *f != *t { steps.push(*f); }
+            for n in steps {
+                if !cycles && seen.contains(&n) { continue; }
+                seen.push(n); edges.push(*id);
+                go(es, n, to, lo, hi, cycles, seen, edges, out);
+                seen.pop(); edges.pop();
+            }
+        }
+    }
+    let mut want = std::collections::BTreeSet::new();
+    go(&es, from, to, lo, hi, cycles, &mut vec![from], &mut vec![], &mut want);
+    let cfg = graph_engine::VariableLengthConfig { min_hops: lo, max_hops: hi, direction: graph_engine::Direction::Outgoing, edge_types: None, max_paths: 1000, allow_cycles: cycles, filter: None };
+    match g.find_variable_paths(from, to, cfg) {
+        Ok(r) => {
+            let got: Vec<Vec<u64>> = r.paths.iter().map(|p| p.edges.clone()).collect();
+            let got_set: std::collections::BTreeSet<Vec<u64>> = got.iter().cloned().collect();
+            let bad = got_set != want || got_set.len() != got.len();
+            json!({"returned": got, "walks_in_bounds": want.iter().cloned().collect::<Vec<_>>(), "violates": bad})
+        }
+        Err(e) => json!({"err": e.to_string(), "violates": true}),
+    }
+}
+
 pub fn handle(op: &str, req: &Value) -> Option<Value> {
+    if op == "graph_variable_paths" {
+        return Some(variable_paths(req));
+    }
     if op == "graph_find_path" {
         return Some(find_path(req));
     }
